@@ -48,6 +48,7 @@ ASSUMPTIONS = [
     "sys.setrecursionlimit is raised inside the check because the observe-only wrappers add three Python frames per hop",
 ]
 SHRINK_KEY = "ops"
+STORM_FINDING = "C08-arp-request-loop"
 
 # ---------------------------------------------------------------------------------------------------------------------
 # (a) route selection
@@ -406,6 +407,8 @@ def run_topo(case: Dict) -> CaseResult:
         mon.Recorder.current = None
     res.nontrivial = routed_exchanges > 0
     res.label(f"family:{family}", f"hosts:{len(ref.hosts)}", f"l3:{len(ref.l3)}", *sorted(labels))
+    if case.get("avoid_storm"):
+        res.label(f"excluded:{STORM_FINDING}")
     for m in spec.get("muts", []):
         res.label(f"mut:{m}")
     if rec.ttl_drops:
@@ -494,5 +497,8 @@ def worker(ctx: Ctx):
     # (a) random tables through the public API
     hyp_run(ctx, routes_case(), run_case, 250 if quick else 6000, sub=1)
     # (b)-(d) topologies
+    # exclusion by construction: while the ARP-request loop is an open finding it would end (by exception) every case that
+    # makes a router ARP for an unowned address on a segment shared with another router, hiding what comes after it
+    avoid = bool(ctx.excl.get(STORM_FINDING))
     for sub, (family, (nq, nt)) in enumerate(FAMILY_PLAN.items(), start=2):
-        hyp_run(ctx, gen.topo_case(family), run_case, nq if quick else nt, sub=sub)
+        hyp_run(ctx, gen.topo_case(family, avoid_storm=avoid), run_case, nq if quick else nt, sub=sub)
